@@ -396,6 +396,17 @@ class ASTPostSimplifyMapper(ASTIdentityMapper):
         else:
             return IfThenElse(expr.condition, then, else_)
 
+    def map_ForLoop(self, expr):
+        body = self.rec(expr.body)
+        if isinstance(body, NullASTNode):
+            # nothing to iterate over
+            return NullASTNode()
+        return ForLoop(
+                loop_var_name=expr.loop_var_name,
+                lbound=expr.lbound,
+                ubound=expr.ubound,
+                body=body)
+
     def map_Block(self, expr):
         new_children = []
         for child in expr.children:
